@@ -50,6 +50,9 @@ def enum_units(tier, seed):
     for a in (0, 1, 3):
         for b in (0, 1, 2, 4):
             cases.append({"rom": "low", "files": {}, "ir": [org, {"k": "for", "v": "i_0", "lo": L(a), "hi": L(b), "b": [db(["id", "i_0"]), {"k": "label", "n": "lb_x"}, {"k": "data", "d": "dl", "es": [["id", "lb_x"]]}]}, db(L(0xEE))]})
+    # negative and expression bounds
+    for lo_t, hi_t in ((["neg", L(2)], L(1)), (["bin", "-", L(0), L(3)], ["neg", L(1)]), (["neg", L(1)], ["neg", L(1)]), (L(2), ["bin", "*", L(2), L(2)])):
+        cases.append({"rom": "low", "files": {}, "ir": [org, {"k": "for", "v": "i_0", "lo": lo_t, "hi": hi_t, "b": [db(["bin", "&", ["id", "i_0"], ["lit", 0xFF, "x"]]), {"k": "data", "d": "dw", "es": [["id", "i_0"]]}]}, db(L(0xEE))]})
     # the loop variable in a condition (always false at the pinned commit)
     cases.append({"rom": "low", "files": {}, "ir": [org, {"k": "for", "v": "i_0", "lo": L(0), "hi": L(3), "b": [{"k": "if", "c": ["id", "i_0"], "t": [db(L(0x11), ["id", "i_0"])], "e": [db(L(0x22))]}]}]})
     cases.append({"rom": "low", "files": {}, "ir": [org, {"k": "for", "v": "i_0", "lo": L(1), "hi": L(3), "b": [{"k": "for", "v": "i_1", "lo": ["id", "i_0"], "hi": ["bin", "+", ["id", "i_0"], L(2)], "b": [db(["id", "i_0"], ["id", "i_1"])]}]}]})
